@@ -1140,17 +1140,17 @@ pub fn gen(seed: u64, thorough: bool, out: &mut dyn FnMut(String)) {
         out(format!("DP 2 1 100 1 11 - 256 {} 1 0 ; OP X0 X0 T300000 X0 X0", st));
     }
     // clean bring-up and data exchange, no faults
-    for i in 0..300 * scale {
+    for i in 0..500 * scale {
         let g = GenCfg { nper: 1 + (i % 4), big: i % 7 == 0, faults: false, clean_tail: false, steps: 20 + rng.below(60) as usize, inject: false };
         out(gen_case(&mut rng, &g));
     }
     // fault histories
-    for i in 0..1500 * scale {
+    for i in 0..3000 * scale {
         let g = GenCfg { nper: i % 5, big: i % 9 == 0, faults: true, clean_tail: false, steps: 20 + rng.below(140) as usize, inject: i % 4 == 0 };
         out(gen_case(&mut rng, &g));
     }
     // fault histories followed by a fault-free tail (recovery, C07)
-    for i in 0..700 * scale {
+    for i in 0..1200 * scale {
         let g = GenCfg { nper: 1 + (i % 4), big: false, faults: true, clean_tail: true, steps: 10 + rng.below(80) as usize, inject: i % 2 == 0 };
         out(gen_case(&mut rng, &g));
     }
